@@ -162,6 +162,8 @@ def run(seed, tier, replay=None):
         # Python ints): the property is about the real number; the dtype of the query must not lower the precision of the answer
         if ci % 4 == 0:
             container_checks(rep, d, k, inp, tol)
+        if ci % 5 == 1:
+            param_container_checks(rep, QD, k, inp, tol, ci)
 
         # ---------------- Spec: the property itself on the real code
         if a == b:
@@ -178,6 +180,53 @@ def run(seed, tier, replay=None):
         extra=dict(driver_lines=drv.lines, extra=dict(calibration=calib),
                    oracle="mpmath (40 digits) on the exact rational values of the inputs; scipy.stats.beta; "
                           "Gauss-Kronrod quadrature of the implementation's pdf in the variable s, y = a+(b-a)s^2"))
+
+
+C_CONTAINERS = ("int8", "uint8", "int16", "uint16", "int32", "uint32", "int64", "uint64", "float")   # c is an integer: integer types and an integral Python float
+
+
+def param_container_checks(rep, QD, k, inp, tol, ci):
+    """the integer parameter c (1..10 fits every integer type) given as a numpy integer scalar of any width or as an integral float:
+    the distribution is the same, so its moments and functions must still be those of the law (arithmetic on c is the library's)"""
+    a, b, c, convex, ys, qs = k["a"], k["b"], k["c"], k["convex"], k["ys"], k["qs"]
+    label = C_CONTAINERS[(ci // 5) % len(C_CONTAINERS)]
+    cc = float(c) if label == "float" else getattr(np, label)(c)
+    rep.count("c_container=" + label)
+    with warnings.catch_warnings():
+        warnings.simplefilter("ignore")
+        try:
+            d2 = QD(a, b, cc, convex)
+            got = dict(mean=float(d2.mean), variance=float(d2.variance))
+            f2 = np.asarray(d2.cdf(np.array(ys[2:7])), dtype=float)
+            p2 = np.asarray(d2.pdf(np.array(ys[2:7])), dtype=float)
+            q2 = np.asarray(d2.ppf(np.array(qs[2:7])), dtype=float)
+        except Exception as e:  # noqa: BLE001
+            rep.violate(what=f"QuadraticDistribution raised for c given as {label} (the same number as a Python int is accepted)", error=repr(e),
+                        input=dict(inp, c_container=label), call="QuadraticDistribution")
+            return
+    checks = [("moments", "mean", got["mean"]), ("moments", "variance", got["variance"])]
+    checks += [("cdf", y, float(v)) for y, v in zip(ys[2:7], f2)] + [("pdf", y, float(v)) for y, v in zip(ys[2:7], p2)]
+    checks += [("ppf", q, float(v)) for q, v in zip(qs[2:7], q2)]
+    with warnings.catch_warnings():
+        warnings.simplefilter("ignore")
+        d1 = QD(a, b, c, convex)      # the same distribution with c as a Python int
+        ref = dict(cdf=np.asarray(d1.cdf(np.array(ys[2:7])), dtype=float), pdf=np.asarray(d1.pdf(np.array(ys[2:7])), dtype=float),
+                   ppf=np.asarray(d1.ppf(np.array(qs[2:7])), dtype=float))
+    pos = dict(cdf=0, pdf=0, ppf=0)
+    for kind, x, iv in checks:
+        rep.case(("c_container", label, kind, inp["a"], inp["b"], c, convex, x if isinstance(x, str) else C.fhex(x)), nontrivial=a < b)
+        if kind != "moments":
+            rv = float(ref[kind][pos[kind]])
+            pos[kind] += 1
+            if iv == rv or (iv != iv and rv != rv) or abs(iv - rv) <= 1e-12 * max(1.0, abs(rv)):
+                continue        # identical to the Python-int instance, which is judged in its own right
+        msg = spec_verdict(kind, a, b, c, convex, x, iv, tol)
+        if msg is not None:
+            extra = {} if isinstance(x, str) else ({"q": C.fhex(x)} if kind == "ppf" else {"y": C.fhex(x)})
+            rep.violate(what=f"{msg} [c given as numpy {label}]" if label not in ("float",) else f"{msg} [c given as a float]",
+                        input=dict(inp, c_container=label, **extra), observed=iv,
+                        call=f"QuadraticDistribution.{x if kind == 'moments' else kind}")
+            break
 
 
 def container_checks(rep, d, k, inp, tol):
